@@ -43,6 +43,42 @@ func init() {
 	Theory["shAbsorb"] = TheoryFn{SMT: "shAbsorb", Ret: "Int", RetT: typInt}
 	Theory["shInit"] = TheoryFn{SMT: "shInit", Ret: "Int", RetT: typInt}
 	Theory["shOut"] = TheoryFn{SMT: "shOut", Ret: "Int", RetT: types.Typ[types.Uint8]}
+	// BLS12-381 field / curve layer (int mode). Field elements are integers (raw limbs), the Montgomery-form
+	// operations of BLST are uninterpreted functions; be48/be32 are big-endian byte strings as integers.
+	Theory["be48"] = TheoryFn{SMT: "be48", HeapArg: "byte", Ret: "Int", RetT: typInt}
+	Theory["be32"] = TheoryFn{SMT: "be32", HeapArg: "byte", Ret: "Int", RetT: typInt}
+	Theory["le32"] = TheoryFn{SMT: "le32", HeapArg: "byte", Ret: "Int", RetT: typInt}
+	Theory["be16"] = TheoryFn{SMT: "be16", HeapArg: "byte", Ret: "Int", RetT: typInt}
+	Theory["FpP"] = TheoryFn{SMT: "FpP", Ret: "Int", RetT: typInt}
+	Theory["FrR"] = TheoryFn{SMT: "FrR", Ret: "Int", RetT: typInt}
+	for _, f := range []string{"fpToMont", "fpFromMont", "fpSquM", "fpNegM", "fpSqrtM", "fpSgn", "fp2SquM", "fp2NegM", "fp2SqrtM", "fp2Sgn", "fp2c0", "fp2c1",
+		"frToMont", "frFromMont", "frNeg", "frInvM", "e1Affine", "e2Affine", "e1Neg", "e2Neg", "g1mulgen", "g2mulgen", "g2mulJ", "h2c", "dl1", "dl2", "mapFr"} {
+		Theory[f] = TheoryFn{SMT: f, Ret: "Int", RetT: typInt}
+	}
+	for _, f := range []string{"fpAddM", "fpMulM", "fp2AddM", "fp2MulM", "fp2c", "frAdd", "frSub", "frMulM", "e1Add", "e2Add", "e1Mul", "e2Mul"} {
+		Theory[f] = TheoryFn{SMT: f, Ret: "Int", RetT: typInt}
+	}
+	for _, f := range []string{"e1x", "e1y", "e1z", "e2x", "e2y", "e2z"} {
+		Theory[f] = TheoryFn{SMT: f, Ret: "Int", RetT: typInt}
+	}
+	// -g2 (the library constant BLS12_381_minus_g2), pairing product of two pairs, and its test against 1
+	Theory["negG2"] = TheoryFn{SMT: "negG2", Ret: "Int", RetT: typInt}
+	Theory["c_BLS12_381_minus_g2"] = TheoryFn{SMT: "negG2", Ret: "Int", RetT: typInt}
+	Theory["mp2"] = TheoryFn{SMT: "mp2", Ret: "Int", RetT: typInt}
+	Theory["fp12IsOne"] = TheoryFn{SMT: "fp12IsOne", Ret: "Bool", RetT: types.Typ[types.Bool]}
+	Theory["h2cb"] = TheoryFn{SMT: "h2cb", HeapArg: "byte", Ret: "Int", RetT: typInt}
+	// hashers as functions: hout(cfg, x) is the digest (as an abstract byte sequence) of input x under configuration cfg;
+	// h2cd(d) the hash-to-curve image of digest d; kmacCfg(key, customizer, size) the configuration of a KMAC128 instance
+	Theory["hout"] = TheoryFn{SMT: "hout", Ret: "Int", RetT: typInt}
+	Theory["h2cd"] = TheoryFn{SMT: "h2cd", Ret: "Int", RetT: typInt}
+	Theory["kmacCfg"] = TheoryFn{SMT: "kmacCfg", Ret: "Int", RetT: typInt}
+	Theory["e1Inf"] = TheoryFn{SMT: "e1Inf", Ret: "Int", RetT: typInt}
+	Theory["e2Inf"] = TheoryFn{SMT: "e2Inf", Ret: "Int", RetT: typInt}
+	Theory["e1c"] = TheoryFn{SMT: "e1c", Ret: "Int", RetT: typInt}
+	Theory["e2c"] = TheoryFn{SMT: "e2c", Ret: "Int", RetT: typInt}
+	for _, f := range []string{"fpSqrtOk", "fp2SqrtOk", "e1OnCurve", "e2OnCurve", "e1IsInf", "e2IsInf", "inG1", "inG2", "e1Eq", "e2Eq"} {
+		Theory[f] = TheoryFn{SMT: f, Ret: "Bool", RetT: types.Typ[types.Bool]}
+	}
 	// ChaCha20 (int mode only): ks(sid, i) is byte i of the keystream of stream sid;
 	// chachaStream(key, nonce) names the stream of a 32-byte key and a 12-byte nonce by their contents.
 	Theory["ks"] = TheoryFn{SMT: "ks", Ret: "Int", RetT: types.Typ[types.Uint8]}
@@ -110,6 +146,82 @@ func TheoryPrelude(m Mode) string {
 		}
 		fmt.Fprintf(&b, "(define-fun rencSeq ((v Int)) Int (seq9 (+ (bytelen v) 1) %s))\n", strings.Join(rb, " "))
 		b.WriteString("(declare-fun seqOfStr (Str) Int)\n")
+		// BLS12-381 layer
+		var t48, t32 []string
+		for k := 0; k < 48; k++ {
+			t48 = append(t48, fmt.Sprintf("(* %s (select (select h (p.obj (sl.ptr s))) (+ (p.off (sl.ptr s)) %d)))", pow2(8*(47-k)).String(), k))
+		}
+		for k := 0; k < 32; k++ {
+			t32 = append(t32, fmt.Sprintf("(* %s (select (select h (p.obj (sl.ptr s))) (+ (p.off (sl.ptr s)) %d)))", pow2(8*(31-k)).String(), k))
+		}
+		// big-endian values: the leading byte is explicit (flag bits live there), the remaining bytes enter through an
+		// uninterpreted function with its range (equalities then follow by congruence instead of big-number arithmetic)
+		byteArg := func(k int) string {
+			return fmt.Sprintf("(select (select h (p.obj (sl.ptr s))) (+ (p.off (sl.ptr s)) %d))", k)
+		}
+		mkBE := func(name string, n int) {
+			var sorts, args, vars, vnames []string
+			for k := 1; k < n; k++ {
+				sorts = append(sorts, "Int")
+				args = append(args, byteArg(k))
+				vars = append(vars, fmt.Sprintf("(b%d Int)", k))
+				vnames = append(vnames, fmt.Sprintf("b%d", k))
+			}
+			low := fmt.Sprintf("%slow", name)
+			fmt.Fprintf(&b, "(declare-fun %s (%s) Int)\n", low, strings.Join(sorts, " "))
+			fmt.Fprintf(&b, "(assert (forall (%s) (! (and (<= 0 (%s %s)) (< (%s %s) %s)) :pattern ((%s %s)))))\n", strings.Join(vars, " "), low, strings.Join(vnames, " "), low, strings.Join(vnames, " "), pow2(8*(n-1)).String(), low, strings.Join(vnames, " "))
+			fmt.Fprintf(&b, "(define-fun %s ((h %s) (s Slice)) Int (+ (* %s %s) (%s %s)))\n", name, hs, pow2(8*(n-1)).String(), byteArg(0), low, strings.Join(args, " "))
+		}
+		_ = t48
+		_ = t32
+		mkBE("be48", 48)
+		mkBE("be32", 32)
+		mkBE("be16", 16)
+		{
+			var sorts, args []string
+			for k := 0; k < 32; k++ {
+				sorts = append(sorts, "Int")
+				args = append(args, byteArg(k))
+			}
+			fmt.Fprintf(&b, "(declare-fun le32f (%s) Int)\n", strings.Join(sorts, " "))
+			fmt.Fprintf(&b, "(define-fun le32 ((h %s) (s Slice)) Int (le32f %s))\n", hs, strings.Join(args, " "))
+		}
+		b.WriteString("(define-fun FpP () Int 4002409555221667393417789825735904156556882819939007885332058136124031650490837864442687629129015664037894272559787)\n")
+		b.WriteString("(define-fun FrR () Int 52435875175126190479447740508185965837690552500527637822603658699938581184513)\n")
+		for _, f := range []string{"fpToMont", "fpFromMont", "fpSquM", "fpNegM", "fpSqrtM", "fpSgn", "fp2SquM", "fp2NegM", "fp2SqrtM", "fp2Sgn", "fp2c0", "fp2c1",
+			"frToMont", "frFromMont", "frNeg", "frInvM", "e1Affine", "e2Affine", "e1Neg", "e2Neg", "g1mulgen", "g2mulJ", "h2c", "dl1", "dl2", "mapFr"} {
+			fmt.Fprintf(&b, "(declare-fun %s (Int) Int)\n", f)
+		}
+		b.WriteString("(define-fun g2mulgen ((x Int)) Int (e2Affine (g2mulJ x)))\n")
+		for _, f := range []string{"fpAddM", "fpMulM", "fp2AddM", "fp2MulM", "fp2c", "frAdd", "frSub", "frMulM", "e1Add", "e2Add", "e1Mul", "e2Mul"} {
+			fmt.Fprintf(&b, "(declare-fun %s (Int Int) Int)\n", f)
+		}
+		b.WriteString("(declare-fun e1c (Int Int Int) Int)\n(declare-fun e2c (Int Int Int) Int)\n")
+		for _, f := range []string{"fpSqrtOk", "fp2SqrtOk", "e1OnCurve", "e2OnCurve", "e1IsInf", "e2IsInf", "inG1", "inG2"} {
+			fmt.Fprintf(&b, "(declare-fun %s (Int) Bool)\n", f)
+		}
+		b.WriteString("(declare-fun e1Eq (Int Int) Bool)\n(declare-fun e2Eq (Int Int) Bool)\n")
+		b.WriteString("(assert (forall ((a Int) (b Int)) (! (and (= (fp2c0 (fp2c a b)) a) (= (fp2c1 (fp2c a b)) b)) :pattern ((fp2c a b)))))\n")
+		for _, f := range []string{"e1x", "e1y", "e1z", "e2x", "e2y", "e2z"} {
+			fmt.Fprintf(&b, "(declare-fun %s (Int) Int)\n", f)
+		}
+		// abstract points: all representations with Z = 0 denote the point at infinity (BLST convention);
+		// the coordinates of the other points are observable
+		b.WriteString("(declare-const e1Inf Int)\n(declare-const e2Inf Int)\n(declare-const negG2 Int)\n")
+		b.WriteString("(declare-fun mp2 (Int Int Int Int) Int)\n(declare-fun fp12IsOne (Int) Bool)\n(declare-fun h2cd (Int) Int)\n(declare-fun hout (Int Int) Int)\n(declare-fun kmacCfg (Int Int Int) Int)\n")
+		b.WriteString("(assert (forall ((x Int) (y Int) (z Int)) (! (and (=> (= z 0) (= (e1c x y z) e1Inf)) (=> (not (= z 0)) (and (= (e1x (e1c x y z)) x) (= (e1y (e1c x y z)) y) (= (e1z (e1c x y z)) z) (not (= (e1c x y z) e1Inf))))) :pattern ((e1c x y z)))))\n")
+		b.WriteString("(assert (forall ((x Int) (y Int) (z Int)) (! (and (=> (= z (fp2c 0 0)) (= (e2c x y z) e2Inf)) (=> (not (= z (fp2c 0 0))) (and (= (e2x (e2c x y z)) x) (= (e2y (e2c x y z)) y) (= (e2z (e2c x y z)) z) (not (= (e2c x y z) e2Inf))))) :pattern ((e2c x y z)))))\n")
+		b.WriteString("(assert (forall ((p Int)) (! (= (e1IsInf p) (= p e1Inf)) :pattern ((e1IsInf p)))))\n")
+		b.WriteString("(assert (forall ((p Int)) (! (= (e2IsInf p) (= p e2Inf)) :pattern ((e2IsInf p)))))\n")
+		// the generator of G2 has prime order r: x*g2 is the identity exactly for x = 0 (mod r); scalars are kept reduced
+		b.WriteString("(assert (forall ((x Int)) (! (=> (and (<= 0 x) (< x FrR)) (= (= (e2Affine (g2mulJ x)) e2Inf) (= x 0))) :pattern ((g2mulJ x)))))\n")
+		b.WriteString("(assert (forall ((a Int) (b Int)) (! (= (= (fp2c a b) (fp2c 0 0)) (and (= a 0) (= b 0))) :pattern ((fp2c a b)))))\n")
+		b.WriteString("(assert (forall ((x Int)) (! (and (<= 0 (fpFromMont x)) (< (fpFromMont x) FpP)) :pattern ((fpFromMont x)))))\n")
+		// x | y for x below 2^5 and y in {0, 2^5} (the sign flag): a true fact about bitwise or
+		b.WriteString("(assert (forall ((x Int) (y Int)) (! (=> (and (<= 0 x) (< x 32) (or (= y 0) (= y 32))) (= (bor_int x y) (+ x y))) :pattern ((bor_int x y)))))\n")
+		b.WriteString("(assert (forall ((y Int)) (! (and (<= 0 (fpSgn y)) (<= (fpSgn y) 1)) :pattern ((fpSgn y)))))\n")
+		b.WriteString("(assert (forall ((y Int)) (! (and (<= 0 (fp2Sgn y)) (<= (fp2Sgn y) 1)) :pattern ((fp2Sgn y)))))\n")
+		fmt.Fprintf(&b, "(define-fun h2cb ((h %s) (s Slice)) Int (h2cd (seqid h s)))\n", hs)
 		b.WriteString("(declare-fun cshakeNew (Int Int) Int)\n(declare-fun shAbsorb (Int Int) Int)\n(declare-fun shInit (Int) Int)\n(declare-fun shOut (Int Int) Int)\n")
 		b.WriteString("(assert (forall ((s Int) (x Int)) (! (= (shInit (shAbsorb s x)) (shInit s)) :pattern ((shAbsorb s x)))))\n")
 		b.WriteString("(assert (forall ((n Int) (c Int)) (! (= (shInit (cshakeNew n c)) (cshakeNew n c)) :pattern ((cshakeNew n c)))))\n")
@@ -148,8 +260,9 @@ var noLemmas bool
 type Lemma struct {
 	Name  string
 	BV    bool
-	SMT   string // closed formula
-	Props []string
+	SMT      string // closed formula
+	Props    []string
+	NoAssert bool // proved for the record (bridges a paper step), not added to the verification conditions
 }
 
 var Lemmas []Lemma
@@ -169,11 +282,31 @@ func init() {
 	}
 }
 
+func init() {
+	// C01, discrete-log model of the pairing groups (G1, G2, GT cyclic of prime order r): with dS = log(S), t = sk*log(H),
+	// the verification equation e(S,-g2)*e(H, sk*g2) = 1 reads dS*(r-1) + t = 0 (mod r); it holds exactly for dS = t mod r,
+	// i.e. for the single point S = sk*H.
+	Lemmas = append(Lemmas, Lemma{
+		Name:     "bls-acceptance-is-the-single-point-sk-times-H",
+		SMT:      "(forall ((dS Int) (t Int)) (=> (and (<= 0 dS) (< dS FrR) (<= 0 t)) (= (= (mod (+ (* dS (- FrR 1)) t) FrR) 0) (= dS (mod t FrR)))))",
+		Props:    []string{"C01", "C17"},
+		NoAssert: true,
+	})
+	// C17, same model: with x = log(p1)*log(pk2), y = log(p2)*log(pk1), SPOCKVerify's equation e(p1,-pk2)*e(p2,pk1) = 1 reads
+	// y - x = 0 (mod r) and the swapped call's equation reads x - y = 0 (mod r): the same verdict.
+	Lemmas = append(Lemmas, Lemma{
+		Name:     "spock-equation-is-symmetric-under-swapping-the-pairs",
+		SMT:      "(forall ((x Int) (y Int)) (= (= (mod (- y x) FrR) 0) (= (mod (- x y) FrR) 0)))",
+		Props:    []string{"C17"},
+		NoAssert: true,
+	})
+}
+
 // lemmaText returns the lemmas of mode m as assertions (they are proved separately by every run that uses them).
 func lemmaText(m Mode) string {
 	var b strings.Builder
 	for _, l := range Lemmas {
-		if l.BV == m.BV {
+		if l.BV == m.BV && !l.NoAssert {
 			b.WriteString("(assert " + l.SMT + ")\n")
 		}
 	}
